@@ -44,10 +44,13 @@ def scenario(task):
             # an output on the grid is 0*prev + 1*curr: exact in IEEE arithmetic for finite values
             if p is not q and dag.ieee_simplify(p, smemo) is not dag.ieee_simplify(q, smemo):
                 diffs.append((i, k))
-                if pass_extra and len(diffs) == 1:
+                # decide "equal as reals" only when the concrete bits agree (otherwise the concrete run already shows the difference)
+                if pass_extra and len(diffs) == 1 and torch.equal(x.elem, y.elem):
                     r, _ = Zc.equal(p, q)
                     if r != 'unsat':
                         real_equal = False
+                elif not torch.equal(x.elem, y.elem):
+                    real_equal = False
     bits = all(torch.equal(x.elem, y.elem) for x, y in zip(full, chunk_out))
     return dict(task=task, diffs=diffs[:5], ndiff=len(diffs), real_equal=real_equal, bits=bits, queries=Zc.queries, solver_s=Zc.solver_s)
 
